@@ -40,13 +40,13 @@ R = [
     (r"ast_shortcuts", r"split_declaration_into_single_nodes_and_multi_substitution", r"debug_assert", "guarded",
      "the grammar only passes SimpleSymbol (no initialiser) to the tuple-declaration productions"),
     # ---- CFG ----------------------------------------------------------------------------------------
-    (r"control_flow_graph/cfg\.rs", r"get_predecessors|get_successors|get_interval|get_true_branch|get_false_branch", r"in control-flow graph", "invariant",
-     "block indices stored in predecessor/successor sets and in branch statements are indices of existing blocks (C12: wfProblems of Spec/Cfg.lean is evaluated on every real CFG)"),
+    (r"control_flow_graph/cfg\.rs", r"get_predecessors|get_successors|get_interval|get_true_branch|get_false_branch", r"in control-flow graph", "proved",
+     "theorem:C01_cfg_indices — block indices stored in predecessor/successor sets and in branch statements are indices of existing blocks (from theorem:C12_shape and theorem:C12_branch_targets; the model CFG is compared with every real CFG by C12's check)"),
     (r"control_flow_graph/cfg\.rs", r"get_true_branch|get_false_branch", r"does not end with an if-statement", "guarded",
      "the only caller (taint_analysis) calls it while visiting the IfThenElse statement of that block, and a branch is the last statement of its block (theorem:C12_branch_last)"),
     (r"control_flow_graph/lifting\.rs", r"build_basic_blocks", r"assert!\(matches!\(body", "invariant", "definition bodies are produced by ParseBlock and stay blocks through desugaring (theorem C01_desugar_body_block for templates)"),
-    (r"control_flow_graph/lifting\.rs", r"visit_statement", r"is_empty\(\)", "invariant",
-     "the children of an InitializationBlock are declarations and substitutions, for which visit_statement returns the empty predecessor set (Model/CfgLift: `simple` statements)"),
+    (r"control_flow_graph/lifting\.rs", r"visit_statement", r"is_empty\(\)", "proved",
+     "theorem:C01_init_block_assert — the children of an InitializationBlock are declarations and substitutions (grammar), for which visit_statement returns the empty predecessor set"),
     (r"control_flow_graph/unique_vars\.rs", r"ensure_unique_variables", r"assert!\(matches!", "invariant", "definition bodies are blocks (see build_basic_blocks)"),
     (r"control_flow_graph/ssa_impl\.rs", r"ensure_phi_argument", r"expected phi statement", "guarded", "only called from update_phi_statements on statements selected by is_phi_statement"),
     (r"control_flow_graph/ssa_impl\.rs", r"insert_ssa_variables|visit_expression", r"version\(\)\.is_none\(\)", "invariant",
